@@ -113,7 +113,7 @@ func c07Body(c *mc.Ctx) {
 	commonMask := subs[c.Choose(len(subs))]
 	strayBlock := c.ChooseDev(2) == 1 // block 0 of the 300-row table present without its table
 	maxSize := []uint64{0, 1, 64, 4096}[c.ChooseDev(4)]
-	lastOnly := c.ChooseDev(2) == 1 // tables only for the newest sent commit (depth 1)
+	lastOnly := c.ChooseDev(2) == 1  // tables only for the newest sent commit (depth 1)
 	bareTable := c.ChooseDev(2) == 1 // a table object present at the destination without blocks or any index (left by an older writer)
 	c.Shard()
 
